@@ -328,3 +328,178 @@ pub fn compositions(n: usize) -> Vec<Vec<usize>> {
     }
     out
 }
+
+// ------------------------------------------------------------------ v5
+
+use crate::v5text::{self, PMap, Val};
+use mqtt_proto::v5;
+
+pub const V5_TYPES: usize = 15;
+
+fn kind_char(id: u8) -> char {
+    match id {
+        0x01 | 0x17 | 0x19 | 0x25 | 0x28 | 0x29 | 0x2a => 'b',
+        0x24 => 'q',
+        0x13 | 0x21 | 0x22 | 0x23 => 'h',
+        0x02 | 0x11 | 0x18 | 0x27 => 'w',
+        0x03 | 0x12 | 0x15 | 0x1a | 0x1c | 0x1f => 's',
+        0x08 => 't',
+        0x09 | 0x16 => 'y',
+        _ => 'v',
+    }
+}
+
+/// `mode`: 0 = random subset, 1 = all present, 2 = none, 3 = exactly one (index `one`), 4 = all but one
+pub fn gen_props(rng: &mut Rng, ids: &[u8], sz: Sizes, mode: u8, one: usize) -> PMap {
+    let mut m = PMap::default();
+    for (i, id) in ids.iter().enumerate() {
+        let present = match mode {
+            0 => rng.chance(1, 2),
+            1 => true,
+            2 => false,
+            3 => i == one % ids.len().max(1),
+            _ => i != one % ids.len().max(1),
+        };
+        if !present {
+            continue;
+        }
+        let v = match kind_char(*id) {
+            'b' => Val::Byte(rng.below(2) as u8),
+            'q' => Val::Byte(rng.below(2) as u8),
+            'h' => Val::U16(*rng.pick(&[0u16, 1, 255, 256, 65535, 1234])),
+            'w' => Val::U32(*rng.pick(&[0u32, 1, 255, 65536, 16777216, u32::MAX, 268435456, 305419896])),
+            's' => Val::Str(gen_text(rng, sz)),
+            't' => Val::Str(gen_topic_name(rng, sz).to_string()),
+            'y' => Val::Bin(gen_bytes(rng, sz)),
+            _ => Val::VarInt(*rng.pick(&[0u32, 1, 127, 128, 16383, 16384, 2097151, 2097152, 268435455])),
+        };
+        m.known.insert(*id, v);
+    }
+    let nu = match mode {
+        2 => 0,
+        _ => {
+            if rng.chance(1, 2) {
+                0
+            } else {
+                1 + rng.below(4) as usize
+            }
+        }
+    };
+    for _ in 0..nu {
+        m.user.push((gen_text(rng, Sizes { big: false }), gen_text(rng, Sizes { big: false })));
+    }
+    m
+}
+
+fn payload_for(rng: &mut Rng, m: &PMap, sz: Sizes) -> Vec<u8> {
+    if m.known.get(&0x01) == Some(&Val::Byte(1)) {
+        gen_text(rng, sz).into_bytes()
+    } else {
+        gen_bytes(rng, sz)
+    }
+}
+
+fn reason_ps(m: &PMap) -> (Option<Arc<String>>, Vec<v5::UserProperty>) {
+    let d = v5text::mk_disconnect_props(m);
+    (d.reason_string, d.user_properties)
+}
+
+/// a valid v5 packet of type index `t` (0..15); `pmode`/`one` steer the property subset
+pub fn gen_v5(rng: &mut Rng, t: usize, sz: Sizes, pmode: u8, one: usize) -> v5::Packet {
+    use v5::*;
+    match t {
+        0 => {
+            let last_will = if rng.chance(1, 2) {
+                let wp = gen_props(rng, &v5text::WILL_IDS, sz, pmode, one);
+                let payload = payload_for(rng, &wp, sz);
+                Some(LastWill { qos: gen_qos(rng), retain: rng.chance(1, 2), topic_name: gen_topic_name(rng, sz), payload: Bytes::from(payload), properties: v5text::mk_will_props(&wp) })
+            } else {
+                None
+            };
+            let props = gen_props(rng, &v5text::CONNECT_IDS, sz, pmode, one);
+            Packet::Connect(Connect {
+                protocol: Protocol::V500,
+                clean_start: rng.chance(1, 2),
+                keep_alive: *rng.pick(&[0u16, 1, 60, 255, 256, 65535]),
+                properties: v5text::mk_connect_props(&props),
+                client_id: Arc::new(gen_text(rng, sz)),
+                last_will,
+                username: if rng.chance(1, 2) { Some(Arc::new(gen_text(rng, sz))) } else { None },
+                password: if rng.chance(1, 2) { Some(Bytes::from(gen_bytes(rng, sz))) } else { None },
+            })
+        }
+        1 => {
+            let props = gen_props(rng, &v5text::CONNACK_IDS, sz, pmode, one);
+            Packet::Connack(Connack { session_present: rng.chance(1, 2), reason_code: *rng.pick(&v5text::CONNECT_RC), properties: v5text::mk_connack_props(&props) })
+        }
+        2 => {
+            let props = gen_props(rng, &v5text::PUBLISH_IDS, sz, pmode, one);
+            let payload = payload_for(rng, &props, sz);
+            Packet::Publish(Publish { dup: rng.chance(1, 2), retain: rng.chance(1, 2), qos_pid: gen_qos_pid(rng), topic_name: gen_topic_name(rng, sz), payload: Bytes::from(payload), properties: v5text::mk_publish_props(&props) })
+        }
+        3 => {
+            let (reason_string, user_properties) = reason_ps(&gen_props(rng, &v5text::ACK_IDS, sz, pmode, one));
+            Packet::Puback(Puback { pid: gen_pid(rng), reason_code: *rng.pick(&v5text::PUBACK_RC), properties: PubackProperties { reason_string, user_properties } })
+        }
+        4 => {
+            let (reason_string, user_properties) = reason_ps(&gen_props(rng, &v5text::ACK_IDS, sz, pmode, one));
+            Packet::Pubrec(Pubrec { pid: gen_pid(rng), reason_code: *rng.pick(&v5text::PUBREC_RC), properties: PubrecProperties { reason_string, user_properties } })
+        }
+        5 => {
+            let (reason_string, user_properties) = reason_ps(&gen_props(rng, &v5text::ACK_IDS, sz, pmode, one));
+            Packet::Pubrel(Pubrel { pid: gen_pid(rng), reason_code: *rng.pick(&v5text::PUBREL_RC), properties: PubrelProperties { reason_string, user_properties } })
+        }
+        6 => {
+            let (reason_string, user_properties) = reason_ps(&gen_props(rng, &v5text::ACK_IDS, sz, pmode, one));
+            Packet::Pubcomp(Pubcomp { pid: gen_pid(rng), reason_code: *rng.pick(&v5text::PUBCOMP_RC), properties: PubcompProperties { reason_string, user_properties } })
+        }
+        7 => {
+            let props = gen_props(rng, &v5text::SUBSCRIBE_IDS, sz, pmode, one);
+            let n = 1 + rng.below(4) as usize;
+            Packet::Subscribe(Subscribe {
+                pid: gen_pid(rng),
+                properties: v5text::mk_subscribe_props(&props),
+                topics: (0..n)
+                    .map(|_| (gen_topic_filter(rng, sz), SubscriptionOptions { max_qos: gen_qos(rng), no_local: rng.chance(1, 2), retain_as_published: rng.chance(1, 2), retain_handling: *rng.pick(&v5text::RETAIN_H) }))
+                    .collect(),
+            })
+        }
+        8 => {
+            let (reason_string, user_properties) = reason_ps(&gen_props(rng, &v5text::ACK_IDS, sz, pmode, one));
+            let n = rng.below(5) as usize;
+            Packet::Suback(Suback { pid: gen_pid(rng), properties: SubackProperties { reason_string, user_properties }, topics: (0..n).map(|_| *rng.pick(&v5text::SUBSCRIBE_RC)).collect() })
+        }
+        9 => {
+            let props = gen_props(rng, &v5text::UNSUBSCRIBE_IDS, sz, pmode, one);
+            let n = 1 + rng.below(4) as usize;
+            Packet::Unsubscribe(Unsubscribe { pid: gen_pid(rng), properties: UnsubscribeProperties { user_properties: v5text::mk_disconnect_props(&props).user_properties }, topics: (0..n).map(|_| gen_topic_filter(rng, sz)).collect() })
+        }
+        10 => {
+            let (reason_string, user_properties) = reason_ps(&gen_props(rng, &v5text::ACK_IDS, sz, pmode, one));
+            let n = rng.below(5) as usize;
+            Packet::Unsuback(Unsuback { pid: gen_pid(rng), properties: UnsubackProperties { reason_string, user_properties }, topics: (0..n).map(|_| *rng.pick(&v5text::UNSUBSCRIBE_RC)).collect() })
+        }
+        11 => Packet::Pingreq,
+        12 => Packet::Pingresp,
+        13 => {
+            let props = gen_props(rng, &v5text::DISCONNECT_IDS, sz, pmode, one);
+            Packet::Disconnect(Disconnect { reason_code: *rng.pick(&v5text::DISCONNECT_RC), properties: v5text::mk_disconnect_props(&props) })
+        }
+        _ => {
+            let props = gen_props(rng, &v5text::AUTH_IDS, sz, pmode, one);
+            Packet::Auth(Auth { reason_code: *rng.pick(&v5text::AUTH_RC), properties: v5text::mk_auth_props(&props) })
+        }
+    }
+}
+
+/// reorder / duplicate / respell parts of a valid v5 encoding while keeping it a frame
+pub fn respell_v5(rng: &mut Rng, enc: &[u8]) -> Vec<u8> {
+    // non-minimal remaining length
+    let mut v = enc.to_vec();
+    if v.len() > 1 && v[1] < 0x80 && rng.chance(1, 2) {
+        let l = v[1];
+        v[1] = l | 0x80;
+        v.insert(2, 0);
+    }
+    v
+}
